@@ -2,6 +2,7 @@ package redis
 
 func init() {
 	vsymHarnesses["HarnessC07Stream"] = HarnessC07Stream
+	vsymHarnesses["HarnessC07Witness"] = HarnessC07Witness
 }
 
 // HarnessC07Stream: every byte string of length L sent to the connection loop: no panic escapes
@@ -21,5 +22,73 @@ func HarnessC07Stream() {
 	if len(conn.out) > 0 {
 		vsymCover("replied")
 	}
+	vsymCover("end")
+}
+
+// vechoHandler is a stateless handler (safe for concurrent use, as a real one must be): GET answers
+// with the key itself, everything else OK — so a witness client's exact replies are known in advance.
+type vechoHandler struct{ vhandler }
+
+func (h *vechoHandler) Get(conn *Conn, key string) (*Message, error) {
+	return NewBulkMessage(key), nil
+}
+
+// HarnessC07Witness: an offending client and a well-behaved witness are served concurrently by the
+// real accept loop and connection goroutines (stub network). The offender sends one request of the
+// given command with arbitrary short arguments and then misbehaves (garbage, disconnect or reset at
+// any offset); the witness must get exactly its own replies, and a client arriving afterwards must
+// still be accepted and served.
+func HarnessC07Witness() {
+	cmd := vsymParam("cmd")
+	nargs := vsymChoice("nargs", vsymParamInt("maxargs", 1)+1)
+	vsymSchedBound(vsymParamInt("preempt", 1))
+	vsymUnwind(400)
+	server := NewServer()
+	h := &vechoHandler{}
+	h.quiet = true
+	server.SetCommandHandler(h)
+	if err := server.Start(); err != nil {
+		vsymFail("start-failed")
+		return
+	}
+	elems := [][]byte{[]byte(cmd)}
+	for i := 0; i < nargs; i++ {
+		elems = append(elems, vsymBytes("arg", vsymChoice("arglen", vsymParamInt("maxlen", 1)+1)))
+	}
+	in := vReq(elems...)
+	off := newVconn(in)
+	switch vsymChoice("misbehaviour", 5) {
+	case 0: // stays polite: closes at the request boundary
+	case 1: // garbage after the request
+		off.in = append(off.in, vsymBytes("garbage", 2)...)
+		vsymCover("garbage")
+	case 2: // half-close inside the request
+		off.cut = vsymChoice("cut", len(in))
+		vsymCover("cut")
+	case 3: // reset inside the request
+		off.cut = vsymChoice("cut", len(in))
+		off.reset = true
+		vsymCover("reset")
+	case 4: // stops reading: every write fails
+		off.failWrite = 0
+		vsymCover("write-failure")
+	}
+	off.yield = true
+	wit := newVconn(append(append(vReqS("ECHO", "hi"), vReqS("GET", "wkey")...), vReqS("PING")...))
+	wit.yield = true
+	vsymAssert(vDial(":6379", off), "offender-accepted")
+	vsymAssert(vDial(":6379", wit), "witness-accepted")
+	vsymQuiesce()
+	vsymAssert(vBytesEq(wit.out, []byte("$2\r\nhi\r\n$4\r\nwkey\r\n+PONG\r\n")), "witness-gets-exactly-its-own-replies")
+	_, ok := vStrictStream(off.out)
+	vsymAssert(ok, "offender-gets-well-formed-replies-or-nothing")
+	vsymAssert(off.closed && wit.closed, "both-connections-released")
+	vsymAssert(len(server.Conns()) == 0, "registry-empty")
+	late := newVconn(vReqS("PING"))
+	vsymAssert(vDial(":6379", late), "server-still-accepts")
+	vsymQuiesce()
+	vsymAssert(vBytesEq(late.out, []byte("+PONG\r\n")), "later-client-served")
+	server.Stop()
+	vsymQuiesce()
 	vsymCover("end")
 }
